@@ -24,4 +24,11 @@ MUTATIONS += [
     ("C09", "adv-error-renderer-result-unchecked", [("aiocoap/pipe.py", "                if not isinstance(msg, Message):\n", "                if False:\n")]),
     ("C09", "adv-response-wrapping-error-relayed", [("@patch", A + "C09_miss5.diff", 3)]),
 ]
+MUTATIONS += [
+    ("C06", "adv-blockwise-key-without-port", [("@patch", A + "C06_miss1.diff", 3)]),
+    ("C06", "adv-block-key-ignores-request-tag", [("@patch", A + "C06_miss2.diff", 3)]),
+    ("C06", "adv-timeoutdict-kept-alive-by-other-keys", [("@patch", A + "C06_miss3.diff", 3)]),
+    ("C06", "adv-blockwise-state-shared-across-resources", [("@patch", A + "C06_miss4.diff", 3)]),
+    ("C06", "adv-plain-get-keeps-stale-rendering", [("@patch", A + "C06_miss5.diff", 3)]),
+]
 CONTROLS = []
